@@ -170,7 +170,12 @@ def gen_cli_case(rnd, i):
         if rnd.random() < 0.12:
             # names that only LOOK like an extension: the format goes by a real '.bin' suffix
             fn = rnd.choice(["bin", "BIN", "raw", "Bin", "xbin", "bin.raw", "raw.bin"])
-        opts = ["-o", {"plain": fn, "subdir": "out/" + fn, "abs": "@ABS@/" + fn}[form]]
+        if form != "plain" and rnd.random() < 0.12:
+            # a file whose NAME is '-' or '-.bin' in some directory: a path like any other (only a bare '-' means standard output)
+            fn = rnd.choice(["-", "-.bin", "-.raw", "-.BIN"])
+        elif form == "plain" and rnd.random() < 0.05:
+            form, fn = "dot", rnd.choice(["-", "-.bin", "-.raw"])
+        opts = ["-o", {"plain": fn, "subdir": "out/" + fn, "abs": "@ABS@/" + fn, "dot": "./" + fn}[form]]
     if mode.startswith("implicit"):
         opts = ["--implicit-bin"]
     if mode.startswith("o+implicit"):
@@ -178,7 +183,7 @@ def gen_cli_case(rnd, i):
         opts = opts + ["--implicit-bin"]
     second = rnd.choice([None, None, "zz2nd.mac", "other/tail.mac", "aa0.mac"])
     # the tape name is text in the selected output charset: up to 16 BYTES of it
-    charset = rnd.choice([None, None, None, "utf-8", "koi8-r", "cp866"]) if any(d[0].endswith("wav") for d in directives) else None
+    charset = rnd.choice([None, None, None, "utf-8", "koi8-r", "cp866", "cp500", "cp037", "utf-16-le", "latin-1"]) if any(d[0].endswith("wav") for d in directives) else None
     if charset in ("utf-8", "cp866") and rnd.random() < 0.7:
         for d in directives:
             if d[0].endswith("wav") and d[1] is not None:
